@@ -278,7 +278,7 @@ class CallMixin:
                 cond = wt if wt is not None else z3.BoolVal(True)
                 if wt is not None:
                     none_of.append(z3.Not(wt))
-                if feasible(p, z3.And(cond, *none_of[:-1] if wt is not None else none_of)):
+                if not z3.is_false(simp(z3.And(cond, *none_of[:-1] if wt is not None else none_of))):
                     q = p.fork()
                     q.assume(cond)
                     q.trace.append('%s raises %s' % (c.target.split('.')[-1], ecls))
@@ -287,8 +287,6 @@ class CallMixin:
                     out.append(Res(q, exc=VExc(ecls, [], 'raised by ' + c.target)))
             for n_ in none_of:
                 normal.assume(n_)
-            if not feasible(normal):
-                return out
             self.havoc_modifies(c, normal, sfc, exceptional=False)
             result = self.fresh_of_type(normal, 'res_' + c.target.split('.')[-1], c.ret) if c.ret not in (None, 'None') else VNone()
             sfc.result = result
